@@ -267,7 +267,8 @@ speaks of each notation by itself); a call inside string interpolation is text
 to the tokenizer, so `--hover` on such a row shows nothing; `--hover` shows the
 last call evaluated on the row (the operator in `if m(1) > 2`), which C22 judges
 only on rows where the user method's call is that last call; `attr_writer` is
-not implemented (`attr_accessor` and `attr_reader` are). Three earlier entries
+not implemented (`attr_accessor` and `attr_reader` are); comparison operators
+written without surrounding spaces (`a<b`) are one token. Three earlier entries
 of this list became findings of a check and were repaired: one-letter class
 names in qualified references (C13), the 2^depth walk over a diamond of
 includes (C02), `--hover` with preloaded files (C18).
@@ -336,7 +337,15 @@ and subclasses that redeclare configured methods (C12: the shape exposed a
 genuine defect, and its repair took the seeded change's effect away),
 `initialize` inside a private section (C16), empty receivers (C17), a preloaded
 file with the target's base name (C22, caught by C18), cross-namespace
-subclasses and endless method bodies (C24).
+subclasses and endless method bodies (C24). (12) Between the rounds I wrote
+small Ruby programs by hand in the idioms a user of the properties would write
+(bare `return`, `private def`, `private :m`, reopened `String`, `self.` in a
+class method, shorthand keywords, `def initialize(a, *rest, **opts)`, `def
+size=(v)`, `def <(other)`, `v = begin ... rescue ... end`, method bodies with
+their own rescue clause). Wherever ti got one wrong, the idiom first went into
+the generator of the property it belongs to, the check was confirmed to report
+it on the unchanged tree, and only then was ti repaired: 14 `fix:` commits came
+about that way.
 
 ### 11.8 Self-validation performed
 
